@@ -33,10 +33,12 @@ PROGS = [
     'a = 1; b = 2; c = 3',
     'if a:\n    b\nelif c:\n    d\nelse:\n    e',
     'print(a, *b, c=d)\ndel e, f\nassert g, h',
+    '[x, {**a, b: c}, y]\nz = {**p, **q, r: s}',
+    'def f(*, a, b=1): pass\nq\ng = lambda *, k, m=2: k',
 ]
 PARAMS = [(on, back, recurse, all_) for on in ('enter', 'leave', 'both') for back in (False, True) for recurse in (True, False) for all_ in (False, True, 'Name')]
 REL = ['cur', 'anc0', 'anc1', 'prev', 'next', 'child']
-ACTS = ['replace', 'remove', 'replace_slice', 'sendF', 'sendT']
+ACTS = ['replace', 'remove', 'replace_slice', 'sendF', 'sendT', 'replace_sendT']
 
 
 def relative(g, rel):
@@ -89,6 +91,7 @@ def execute(ctx, FST, src, params, schedule, label):
     sent_true = False
     expect_child_of = None      # (FST node) next yield must be a descendant of it
     expect_exact = None         # (FST node) next yield must be exactly this node (if still alive)
+    expect_rewalk = None        # (FST node, ids of new descendants that must be yielded before the node comes back, seen ids)
     case = {'src': src, 'params': [on, back, recurse, all_], 'schedule': {str(k): list(v) for k, v in schedule.items()}, 'label': label}
     gen = root.walk(allv, on, back=back, recurse=recurse)
     steps = 0
@@ -137,11 +140,43 @@ def execute(ctx, FST, src, params, schedule, label):
                     ctx.violation('walk-does-not-continue-with-following-node', f'{label} {params}: after removing the current node expected {expect_exact!r} next, got {g!r}; log {log}', case)
                     return applied
                 expect_exact = None
+            if expect_rewalk is not None:
+                tgt, want_ids, seen_ids = expect_rewalk
+                if g is tgt and on == 'both' and not leaving:
+                    pass   # documented for on='both': after send(True) on leaving the node is yielded again as entered, then its children, then on leaving
+                elif g is tgt:
+                    if not want_ids <= seen_ids:
+                        ctx.violation('send-true-after-replace-does-not-walk-new-children', f'{label} {params}: the current node was replaced by a node with children and send(True) was sent; the node came back after only {len(want_ids & seen_ids)} of its {len(want_ids)} new descendants were yielded; log {log}', case)
+                        return applied
+                    expect_rewalk = None
+                else:
+                    seen_ids.add(id(g.a))
             send = None
             act = schedule.get(steps - 1)
             if act is not None:
+                expect_rewalk = None   # a further action while the re-walk is pending: the clause is only judged for an undisturbed re-walk
                 a, rel, which = act
-                if a == 'sendF':
+                if a == 'replace_sendT':
+                    code = {'stmt': 'if n1:\n    n2(n3)', 'expr': 'n5(n6, n7)'}.get('stmt' if isinstance(g.a, ast.stmt) else 'expr' if isinstance(g.a, ast.expr) and isinstance(getattr(g.a, 'ctx', ast.Load()), ast.Load) and g.parent
+                                                                                  and not isinstance(g.parent.a, (ast.Attribute, ast.keyword)) else None)
+                    if code and g.parent is not None:
+                        try:
+                            g.replace(code, norm=True)
+                            inserted += 12
+                            applied += 1
+                            send = True
+                            sent_true = True
+                            log.append(('replace_sendT', code, steps - 1))
+                            ctx.cell('replace_sendT', 'cur', on, back, all_)
+                            if g.a is not None and all_ in (True, 'Name') and (leaving or on == 'enter'):
+                                want_ids = {id(x) for x in ast.walk(g.a) if x is not g.a and (all_ is True or isinstance(x, ast.Name))}
+                                expect_rewalk = (g, want_ids, set()) if leaving else None
+                                if not leaving:
+                                    expect_child_of = g
+                        except Exception as e:
+                            log.append(('refused', a, type(e).__name__))
+                            ctx.count('consumer_edit_refused')
+                elif a == 'sendF':
                     send = False
                     log.append(('sendF', steps - 1))
                 elif a == 'sendT':
@@ -213,6 +248,9 @@ def execute(ctx, FST, src, params, schedule, label):
         tb = traceback.extract_tb(e.__traceback__)
         where = f'{tb[-1].filename.split("/")[-1]}:{tb[-1].name}' if tb else '?'
         ctx.violation(f'walk-raised:{type(e).__name__}', f'{label} {params}: generator raised {type(e).__name__}: {short(str(e), 100)} at {where} after {log}', case)
+        return applied
+    if expect_rewalk is not None and not expect_rewalk[1] <= expect_rewalk[2] and expect_rewalk[0].a is not None:
+        ctx.violation('send-true-after-replace-does-not-walk-new-children', f'{label} {params}: the current node was replaced by a node with children and send(True) was sent; the walk ended after only {len(expect_rewalk[1] & expect_rewalk[2])} of its {len(expect_rewalk[1])} new descendants were yielded; log {log}', case)
         return applied
     ctx.count('schedules_executed')
     ctx.evaluations += 1
@@ -305,7 +343,7 @@ def run(ctx):
         execute(ctx, FST, src, params, {}, f'PROG[{pi}]')
         for yi in range(ny):
             for act in ACTS:
-                rels = REL if act in ('replace', 'remove', 'replace_slice') else ['-']
+                rels = REL if act in ('replace', 'remove', 'replace_slice') else ['cur'] if act == 'replace_sendT' else ['-']
                 for rel in rels:
                     for which in ((0, 1, 2) if act == 'replace' and rel == 'cur' else (0,)):
                         if ctx.out_of_time():
